@@ -1,6 +1,166 @@
 import Driver.JsonIO
-open Lean
+import RulioModel.Breaker
+open Lean Gen.C20
 
-/-- model-side handler for cases whose "kind" starts with "c20." (stub until the property's slice lands) -/
+/-! model-side handler for the `c20.*` kinds (driver glue, no theorem uses it) -/
+
+namespace C20D
+
+def natArr (c : Json) (k : String) : List Nat := (jarr c k).map fun j => (j.getNat?).toOption.getD 0
+def jnat (c : Json) (k : String) : Nat := (jint c k).toNat
+def natsJ (l : List Nat) : Json := Json.arr (l.map fun n => Json.num (JsonNumber.fromNat n)).toArray
+def boolsJ (l : List Bool) : Json := Json.arr (l.map Json.bool).toArray
+
+/-- start state of a script: given counts (or zeros), `updated = 0` -/
+def startOB (c : Json) : OB :=
+  let b := OB.init (jnat c "limit") (jnat c "interval")
+  let b := if jhas c "counts" then { b with counts := natArr c "counts" } else b
+  if jhas c "updated" then { b with updated := jnat c "updated" } else b
+
+/-- cumulative times of a gap script -/
+def cumul (t0 : Nat) : List Nat → List Nat
+  | [] => []
+  | g :: gs => (t0 + g) :: cumul (t0 + g) gs
+
+/-- run with the explicit panics; stops at the first error -/
+def runE (fixed : Bool) (b : OB) : List Nat → List (Bool × List Nat) → Except String (List (Bool × List Nat))
+  | [], acc => .ok acc.reverse
+  | t :: ts, acc =>
+    -- `"fixed": true` runs the proposed repair (`OB.callFixed`) instead of the current code
+    match (if fixed then (if b.ticks = 0 ∨ b.res = 0 then .error .divByZero else .ok (b.callFixed t)) else b.callE t) with
+    | .error .divByZero => .error "divzero"
+    | .error .indexRange => .error "index"
+    | .ok (b', closed) => runE fixed b' ts ((closed, b'.counts) :: acc)
+
+/-- specification, rate clause: no window `[t, t + W)` starting at an admission holds more than `limit` admissions -/
+def specWindowOK (limit W : Nat) (adm : List Nat) : Bool :=
+  adm.all fun a => (adm.filter fun t => a ≤ t && t < a + W).length ≤ limit
+
+/-- specification, recovery clause: indices of refused calls although fewer than `limit` admissions lie in `(now - W, now]` -/
+def specRecoveryMisses (limit W : Nat) (times : List Nat) (closed : List Bool) : List Nat :=
+  go 0 times closed []
+where
+  go (i : Nat) : List Nat → List Bool → List Nat → List Nat
+    | t :: ts, c :: cs, adm =>
+      let recent := (adm.filter fun u => t < u + W).length
+      let miss := !c && recent < limit
+      let rest := go (i + 1) ts cs (if c then t :: adm else adm)
+      if miss then i :: rest else rest
+    | _, _, _ => []
+
+/-- over-admission w.r.t. the declarative rule "admit iff fewer than limit admissions in the last W": indices admitted
+although `limit` admissions already lie within `(now - W, now]` -/
+def specOverAdmits (limit W : Nat) (times : List Nat) (closed : List Bool) : List Nat :=
+  go 0 times closed []
+where
+  go (i : Nat) : List Nat → List Bool → List Nat → List Nat
+    | t :: ts, c :: cs, adm =>
+      let recent := (adm.filter fun u => t < u + W).length
+      let over := c && limit ≤ recent
+      let rest := go (i + 1) ts cs (if c then t :: adm else adm)
+      if over then i :: rest else rest
+    | _, _, _ => []
+
+def gapsFast (res : Nat) (gaps : List Nat) : Bool := gaps.all (· < res)
+def gapsSlow (res : Nat) (gaps : List Nat) : Bool := gaps.all fun g => g == 0 || res ≤ g
+
+def breakerSeq (c : Json) : Json :=
+  let b := startOB c
+  let times := if jhas c "times" then natArr c "times" else cumul b.updated (natArr c "gaps")
+  match runE (jbool c "fixed") b times [] with
+  | .error e => Json.mkObj [("err", Json.str e)]
+  | .ok steps =>
+    let closed := steps.map (·.1)
+    let adm := ((times.zip closed).filter (·.2)).map (·.1)
+    let W := b.ticks * b.res
+    let zeroStart := b.counts.all (· == 0)
+    let gaps := (times.zip (b.updated :: times)).map fun p => p.1 - p.2
+    Json.mkObj [
+      ("closed", boolsJ closed),
+      ("counts", Json.arr (steps.map fun s => natsJ s.2).toArray),
+      ("final", natsJ ((steps.getLast?.map (·.2)).getD b.counts)),
+      ("W", Json.num (JsonNumber.fromNat W)), ("res", Json.num (JsonNumber.fromNat b.res)),
+      ("zero_start", Json.bool zeroStart),
+      ("spec_window_ok", Json.bool (!zeroStart || specWindowOK b.limit W adm)),
+      ("spec_recovery_misses", natsJ (if zeroStart then specRecoveryMisses b.limit W times closed else [])),
+      ("spec_over_admits", natsJ (if zeroStart then specOverAdmits b.limit W times closed else [])),
+      ("fast", Json.bool (gapsFast b.res (gaps.drop 1))),
+      ("slow", Json.bool (gapsSlow b.res gaps))]
+
+def slideOnly (c : Json) : Json :=
+  let b := startOB c
+  if b.ticks = 0 ∨ b.res = 0 then Json.mkObj [("err", Json.str "divzero")]
+  else
+    let b' := b.slide (b.updated + jnat c "gap")
+    Json.mkObj [("counts", natsJ b'.counts), ("updated_is_now", Json.bool (b'.updated == b.updated + jnat c "gap"))]
+
+def pcName : SPc → String
+  | .idle => "idle" | .waiting => "waiting" | .overflow => "overflow" | .done => "done"
+
+def throttle (c : Json) : Json :=
+  let evs : List Thr.Ev := (jarr c "evs").map fun e =>
+    match jstr e "ev" with
+    | "sub" => .sub (jnat e "tid")
+    | "disable" => .setDisabled (jbool e "on")
+    | _ => .spawn
+  let t0 := Thr.start (jnat c "pendingLimit") (jbool c "disabled") (jnat c "n")
+  -- trace: pending and waiting after every event
+  let rec go (t : Thr) : List Thr.Ev → List (Nat × Nat) → Thr × List (Nat × Nat)
+    | [], acc => (t, acc.reverse)
+    | e :: es, acc => let t' := t.ev e; go t' es ((t'.pending, t'.waiting) :: acc)
+  let r := go t0 evs []
+  -- class predicate of the known finding: an overflowing Submit that increments `pending` because the throttle is disabled
+  let rec leaks (t : Thr) : List Thr.Ev → Nat
+    | [] => 0
+    | e :: es =>
+      let here := match e with
+        | .sub tid => if t.pcs[tid]? == some .idle && t.disabled && tooMany t.pendingLimit t.pending then 1 else 0
+        | _ => 0
+      here + leaks (t.ev e) es
+  Json.mkObj [("leaks", Json.num (JsonNumber.fromNat (leaks t0 evs))),("pending", Json.num (JsonNumber.fromNat r.1.pending)), ("waiting", Json.num (JsonNumber.fromNat r.1.waiting)),
+    ("pcs", Json.arr (r.1.pcs.map fun p => Json.str (pcName p)).toArray),
+    ("trace_pending", natsJ (r.2.map (·.1))), ("trace_waiting", natsJ (r.2.map (·.2))),
+    ("max_waiting", Json.num (JsonNumber.fromNat (r.2.foldl (fun m p => max m p.2) 0)))]
+
+def bkind (j : Json) : BKind :=
+  match jstr j "b" with
+  | "outbound" => .outbound (jbool j "closed")
+  | "simple" => .simple (jbool j "closed") (jbool j "disabled")
+  | "comboDisabled" => .comboDisabled
+  | _ => .combo (jbool j "closed")
+
+def submitLoopJ (c : Json) : Json :=
+  let st := (jarr c "st").map bkind
+  let r := submitLoop (jnat c "attempts") st
+  Json.mkObj [("runs", Json.num (JsonNumber.fromNat r.1)), ("worked", Json.bool r.2),
+    ("faithful", Json.bool (st.all BKind.faithful))]
+
+def capOut : CapOut → String
+  | .ok => "ok" | .capacity => "capacity" | .notFound => "notFound"
+
+def capacity (c : Json) : Json :=
+  let ops : List CapOp := (jarr c "ops").map fun o =>
+    match jstr o "op" with
+    | "addFact" => .addFact (jstr o "id") (jstr o "v")
+    | "addRule" => .addRule (jstr o "id") (jstr o "v")
+    | "rem" => .rem (jstr o "id")
+    | _ => .setProp (jstr o "id") (jstr o "v")
+  let c0 : Cap := { maxFacts := jint c "max", store := [] }
+  let rec go (s : Cap) : List CapOp → List (String × Nat) → Cap × List (String × Nat)
+    | [], acc => (s, acc.reverse)
+    | o :: os, acc => let r := s.step o; go r.1 os ((capOut r.2, r.1.count) :: acc)
+  let r := go c0 ops []
+  Json.mkObj [("outs", Json.arr (r.2.map fun p => Json.str p.1).toArray), ("sizes", natsJ (r.2.map (·.2))),
+    ("ids", Json.arr (r.1.store.map fun kv => Json.str kv.1).toArray),
+    ("public", Json.bool (ops.all Cap.CapOp.public))]
+
+end C20D
+
 def handleC20 (kind : String) (c : Json) : Json :=
-  Json.mkObj [("err", Json.str ("unknown kind " ++ kind))]
+  match kind with
+  | "c20.breaker_seq" => C20D.breakerSeq c
+  | "c20.slide" => C20D.slideOnly c
+  | "c20.throttle" => C20D.throttle c
+  | "c20.submit_loop" => C20D.submitLoopJ c
+  | "c20.capacity" => C20D.capacity c
+  | _ => Json.mkObj [("err", Json.str ("unknown kind " ++ kind))]
